@@ -162,6 +162,20 @@ func init() {
 					}
 				}
 			}
+			// destinations below the directories whose files some tools type by location (documentation, licences, manual
+			// pages, /etc): the type is what the entry declares, wherever it goes
+			for _, dir := range []string{"/usr/share/doc/pkg/", "/usr/share/doc/", "/usr/share/licenses/pkg/", "/usr/share/man/man1/", "/etc/", "/etc/pkg/", "/usr/share/info/", "/var/log/"} {
+				for _, typ := range c08Types {
+					if typ == "tree" {
+						continue
+					}
+					e := c08Entry(typ, "", 1, false)
+					e.Dst = dir + "c08-" + strings.NewReplacer("|", "-").Replace(typ) + ".x"
+					if !yield(C08Case{Part: "typed-by-location", List: []model.Entry{e, c08Entry("", "", 2, false)}}) {
+						return
+					}
+				}
+			}
 			// a ghost that names a source (its content is not shipped), with and without file_info, an empty source
 			for _, src := range []string{"etc/app.conf", "etc/empty", "bin/app"} {
 				for _, info := range []bool{false, true} {
